@@ -68,6 +68,8 @@ def q__distribute_from_split_pool(tx, fee):
             raise ValueError()
         for value, tx_out in zip(split_with_remainder(remaining_coins, zero_count), zero_txs_out):
             tx_out.coin_value = value
+    elif sum((tx_out.coin_value for tx_out in tx.txs_out)) > sum((spendable.coin_value for spendable in tx.unspents)):
+        raise ValueError()
     return zero_count
 
 
